@@ -17,15 +17,25 @@ import (
 // size 0 is a zero-length read), followed by the terminal condition Term
 // ("eof" or "err"), which accompanies the last chunk iff WithData. The
 // terminal condition is sticky.
+//
+// Conds (optional, one per chunk, "" / "none" / "eof" / "err") are ONE-SHOT
+// conditions: returned together with the last part of their chunk (alone if
+// the chunk is empty) and never repeated. CloseErr makes Close return an error
+// (the stream is closed nevertheless).
 type Script struct {
 	Content  []byte
 	Chunks   []int
 	Term     string
 	WithData bool
+	Conds    []string
+	CloseErr bool
 }
 
 // ErrScript is the error a script with Term "err" returns.
 var ErrScript = errors.New("streamkit: scripted stream error")
+
+// ErrCloseFail is what Close returns when the script says so.
+var ErrCloseFail = errors.New("streamkit: scripted close error")
 
 // ErrClosed is what a scripted stream returns when read/written after Close.
 var ErrClosed = errors.New("streamkit: use of closed stream")
@@ -36,7 +46,15 @@ func (s Script) JSON() drv.M {
 	if ch == nil {
 		ch = []int{}
 	}
-	return drv.M{"content": trace.B(string(s.Content)), "chunks": ch, "term": s.Term, "withData": s.WithData}
+	conds := make([]string, len(ch))
+	for i := range conds {
+		conds[i] = "none"
+		if i < len(s.Conds) && s.Conds[i] != "" {
+			conds[i] = s.Conds[i]
+		}
+	}
+	return drv.M{"content": trace.B(string(s.Content)), "chunks": ch, "term": s.Term, "withData": s.WithData,
+		"conds": conds, "closeErr": s.CloseErr}
 }
 
 // ScriptFromJSON reads a script back from a descriptor.
@@ -46,6 +64,12 @@ func ScriptFromJSON(v any) Script {
 	for _, c := range drv.List(m["chunks"]) {
 		s.Chunks = append(s.Chunks, drv.Int(c))
 	}
+	if cs, ok := m["conds"]; ok {
+		for _, c := range drv.List(cs) {
+			s.Conds = append(s.Conds, drv.Str(c))
+		}
+	}
+	s.CloseErr = drv.Bool(m["closeErr"])
 	return s
 }
 
@@ -64,7 +88,24 @@ func (s Script) WellFormed() bool {
 	if s.WithData && (len(s.Chunks) == 0 || s.Chunks[len(s.Chunks)-1] == 0) {
 		return false
 	}
+	if s.Conds != nil && (len(s.Conds) != len(s.Chunks) || (s.WithData && s.cond(len(s.Chunks)-1) != nil)) {
+		return false
+	}
 	return true
+}
+
+// cond is the one-shot condition of chunk i (nil: none).
+func (s Script) cond(i int) error {
+	if i >= len(s.Conds) {
+		return nil
+	}
+	switch s.Conds[i] {
+	case "eof":
+		return io.EOF
+	case "err":
+		return ErrScript
+	}
+	return nil
 }
 
 func (s Script) termErr() error {
@@ -105,7 +146,9 @@ func (r *Core) read(p []byte) (int, error) {
 	r.off += m
 	done := m == c
 	last := r.pos == len(r.sc.Chunks)-1
+	var cond error
 	if done {
+		cond = r.sc.cond(r.pos)
 		r.pos++
 		r.inChunk = 0
 	} else {
@@ -114,12 +157,15 @@ func (r *Core) read(p []byte) (int, error) {
 	if done && last && r.sc.WithData {
 		return m, r.sc.termErr()
 	}
-	return m, nil
+	return m, cond
 }
 
 func (r *Core) close() error {
 	r.closed = true
 	r.Closes++
+	if r.sc.CloseErr {
+		return ErrCloseFail
+	}
 	return nil
 }
 
@@ -152,6 +198,8 @@ func ErrClass(err error) string {
 		return "err"
 	case errors.Is(err, ErrClosed):
 		return "closed"
+	case errors.Is(err, ErrCloseFail):
+		return "cerr"
 	case errors.Is(err, ErrWrite):
 		return "werr"
 	case err == io.ErrUnexpectedEOF:
